@@ -48,7 +48,7 @@ class P(core.Prop):
     check_mod = 'Check.C10'
     spec_mod = 'Check.C10_spec'
     extra_imports = 'From TxVerif Require Import Spec.CfgTypes Spec.TorStore Spec.CfgOracle Spec.C10.\n'
-    quick_n = 1500
+    quick_n = 1000
     thorough_n = 24000
     shard = 150
     design_ref = '5/C10'
